@@ -233,6 +233,41 @@ BASE = {
 }
 POSITIONAL = {"check": st.sampled_from(["1.2.3", "1.0.0-rc.1", "1.0a1", "v2.0.0", "not-a-version", "1.0.post1"]), "render": st.sampled_from(["1.2.3", "1.0.0-rc.1+b.5", "2!1.0a1.post2", "v2.0.0", "nope"])}
 
+CHILD = r"""
+import json, sys
+sys.path.insert(0, "/repo/python")
+import zerv
+cfg = json.loads(sys.argv[1])
+zerv.find_zerv_bin = lambda: cfg["bin"]
+try:
+    print("OK " + json.dumps(getattr(zerv, cfg["fn"])(**cfg["kwargs"])))
+except RuntimeError as e:
+    print("RAISE " + json.dumps(str(e)[:300]))
+"""
+
+def check_inherited(fname, kwargs, cwd, doc):
+    """The interpreter's own stdin is a pipe that carries `doc` (as in `zerv version --output-format zerv |
+    python script.py`): a call without stdin= hands that stdin to zerv, exactly as the command line
+    `zerv <sub> ...` started from the same place would read it."""
+    STATS["evaluations"] += 1
+    label("inherited-stdin")
+    argv = equivalent_argv(fname, [], kwargs)
+    expected = _real_run([ZERV_BIN, *argv], input=doc, capture_output=True, text=True, check=False, env=ENV, cwd=cwd)
+    child = _real_run([sys.executable, "-c", CHILD, json.dumps({"bin": ZERV_BIN, "fn": fname, "kwargs": kwargs})], input=doc, capture_output=True, text=True, check=False, env=ENV, cwd=cwd)
+    got = child.stdout.strip()
+    if not (got.startswith("OK ") or got.startswith("RAISE ")):
+        raise Violation(f"zerv.{fname}(**{kwargs!r}) in an interpreter whose stdin is a pipe: the interpreter printed {child.stdout!r} / {child.stderr[-300:]!r}")
+    STATS["nontrivial"].add(hashlib.sha1(json.dumps(["inherited", fname, kwargs, cwd == "/", doc[:40]], sort_keys=True).encode()).hexdigest())
+    if expected.returncode == 0:
+        want = expected.stdout.strip()
+        if got.startswith("RAISE "):
+            raise Violation(f"interpreter stdin = a piped document, cwd {'/' if cwd == '/' else '<repository>'}: the command line {argv} succeeds with {mask(want)!r} but zerv.{fname}(**{kwargs!r}) raised {got[6:]}")
+        have = json.loads(got[3:])
+        if mask(have) != mask(want):
+            raise Violation(f"interpreter stdin = a piped document, cwd {'/' if cwd == '/' else '<repository>'}: the command line {argv} prints {mask(want)!r}; zerv.{fname}(**{kwargs!r}) returned {mask(have)!r}")
+    elif got.startswith("OK "):
+        raise Violation(f"interpreter stdin = a piped document: the command line {argv} fails (exit {expected.returncode}) but zerv.{fname}(**{kwargs!r}) returned {got[3:]}")
+
 def kwargs_strategy(fname, subset):
     kws = [k for k in keywords(FUNCS[fname]) if k not in ("stdin", "repo_path")]
     if subset is not None:
@@ -411,6 +446,18 @@ def run_property(tier, seed_value):
         for k in keywords(fn):
             if k != "stdin" and long_flag(k)[2:] not in HELP[fname]:
                 violations.append({"case": {"function": fname, "positional": [], "kwargs": {k: None}, "unknown_flag": long_flag(k)}, "msg": f"keyword {k} of zerv.{fname}() maps to {long_flag(k)}, which `zerv {fname} --help` does not list"})
+    # (4) the interpreter's own stdin: piped document / empty pipe / garbage, outside and inside a repository
+    docs = [STDIN_OBJECT, "", "not a zerv document\n"]
+    kws = [{}, {"output_format": "zerv"}, {"output_format": "pep440"}, {"schema": "standard-base-prerelease-post"}, {"source": "stdin"}, {"source": "git"}, {"source": "none", "tag_version": "1.2.3"}, {"input_format": "semver"}]
+    for fname in ("version", "flow"):
+        for kw in kws if tier != "quick" else kws[:6]:
+            for cwd in ("/", GIT_REPO):
+                for doc in docs:
+                    try:
+                        check_inherited(fname, kw, cwd, doc)
+                    except Violation as e:
+                        violations.append({"case": {"function": fname, "positional": [], "kwargs": kw, "inherited": {"cwd": "repo" if cwd == GIT_REPO else "/", "doc": doc}}, "msg": str(e)})
+                        break
     return violations
 
 def setup_fixtures():
@@ -480,6 +527,8 @@ def main():
                     if v: raise Violation(v[0]["msg"])
                 elif "fake" in c:
                     check_fake(c["function"], c["positional"], c["kwargs"], c["fake"]["mode"], c["fake"]["out"])
+                elif "inherited" in c:
+                    check_inherited(c["function"], c["kwargs"], GIT_REPO if c["inherited"]["cwd"] == "repo" else "/", c["inherited"]["doc"])
                 else:
                     check_call(c["function"], c["positional"], c["kwargs"])
                 print(f"replay {replay}: property holds on this case"); return 0
